@@ -766,3 +766,100 @@ theorem table_null_key_run (o : Opts) {path : Path} {put : Container → Cif} {c
     hpost hseen2 hfuel hrest hF
 
 end CifModel.Model.Parser
+
+namespace CifModel.Model.Parser
+open CifModel CifModel.Model CifModel.Model.Lexer CifModel.Spec.Grammar CifModel.Spec.Lexical
+open CifModel.Gen.ErrCodes
+
+/-! ### keys that make the parser split a token (`key:value` written without quotes; `:value`)
+
+The parser pushes the tail of the word back to the scanner (TRIM_TOKEN).  What the scanner hands out afterwards is a property of
+the scanner (and of the column it has reached: the column is not adjusted by the push-back), so these two classes are stated
+at the table loop, anchored at the scanner state: the word handed out is `t`; after the push-back the scanner feeds the value
+`v` and then whatever follows (`hre`).  `acc` — the entries collected before — is arbitrary, the entries behind are arbitrary. -/
+
+theorem table_unquoted_key_step (o : Opts) (t : Tok) (s' : PS) (i : Nat) (v : Val) (X : List TokSpec) (F : Nat)
+    (s1 : PS) (w1 : W) (acc1 : List (Str × Str × V))
+    (hn : ∀ pol w, nextTok o s1 pol w = .ok (t, s') w) (hty : t.ty = .value) (hhead : t.text.head? ≠ some colon)
+    (hci : colonIdx t.text = some i)
+    (hk0 : noNul (t.text.take i) = true) (hkd : hasDisallowed (t.text.take i) = false)
+    (hwv : wfVal o v = true) (hf : szVal v ≤ F)
+    (hre : Feeds o (consume (trimTok s' t (i + 1) .key).2) (valToks v ++ X)) :
+    ∃ s2 r, tableLoop o (F + 2) s1 acc1 acceptAll w1
+        = tableLoop o F s2 (putEntry o.normKey acc1 (t.text.take i) (denoteVal o.dia o.normKey v)) acceptAll
+            { w1 with log := r :: w1.log }
+      ∧ r.code = CIF_UNQUOTED_KEY ∧ Feeds o s2 X := by
+  obtain ⟨vty, vtx, vts, hvt, hstart, _⟩ := valToks_head v
+  have hr' := hre
+  rw [hvt, List.cons_append] at hr'
+  obtain ⟨t2, s2, hty2, htx2, hn2, ht2, hr2⟩ := hr'.inv
+  have hpend : Feeds o s2 (valToks v ++ X) := by
+    rw [hvt, List.cons_append, ← hty2, ← htx2]; exact Feeds.pending ht2 hr2
+  let r0 : Report := ⟨CIF_UNQUOTED_KEY, s'.scan.line, s'.scan.col - t.text.length⟩
+  obtain ⟨s3, h1, h2⟩ := value_structure o v _ s2 F acceptAll { w1 with log := r0 :: w1.log } hwv hf hpend
+  have hk : (trimTok s' t (i + 1) .key).fst.text.take i = t.text.take i := by
+    show (t.text.take (i + 1)).take i = t.text.take i
+    simp [List.take_take]
+  refine ⟨s3, r0, ?_, rfl, h2⟩
+  rw [tableLoop]
+  simp only [bind_eq, pure_eq, P.bind, P.pure, hn, hty, hhead, if_false, hci, report_accept]
+  rw [tableEntry]
+  simp only [hk, cstr_noNul hk0, bind_eq, pure_eq, P.bind, P.pure, hkd, Bool.false_eq_true, if_false, hn2, hty2, hstart, if_true, h1,
+    tableSet_eq_putEntry, r0]
+
+/-- `… key:value …}` without quotes inside a table: exactly one CIF_UNQUOTED_KEY; the table is the entries before, the entry
+    `key ↦ value`, and the entries behind -/
+theorem table_unquoted_key_tail (o : Opts) (t : Tok) (s' : PS) (i : Nat) (v : Val) (epost : List (Str × Presentation × Val))
+    (X : List TokSpec) (fuel : Nat) (s1 : PS) (w1 : W) (acc1 : List (Str × Str × V))
+    (hn : ∀ pol w, nextTok o s1 pol w = .ok (t, s') w) (hty : t.ty = .value) (hhead : t.text.head? ≠ some colon)
+    (hci : colonIdx t.text = some i)
+    (hk0 : noNul (t.text.take i) = true) (hkd : hasDisallowed (t.text.take i) = false)
+    (hwv : wfVal o v = true) (hepost : wfEntries o epost = true) (hf : szVal v + szEntries epost + 3 ≤ fuel)
+    (hre : Feeds o (consume (trimTok s' t (i + 1) .key).2) (valToks v ++ (entriesToks epost ++ (.ctable, [125]) :: X))) :
+    ∃ s2 r, tableLoop o fuel s1 acc1 acceptAll w1
+        = .ok (denoteEntries o.dia o.normKey epost (putEntry o.normKey acc1 (t.text.take i) (denoteVal o.dia o.normKey v)), s2)
+            { w1 with log := r :: w1.log }
+      ∧ r.code = CIF_UNQUOTED_KEY ∧ Feeds o s2 X := by
+  obtain ⟨F, rfl⟩ : ∃ F, fuel = F + 2 := ⟨fuel - 2, by omega⟩
+  obtain ⟨s2, r, h1, h2, h3⟩ := table_unquoted_key_step o t s' i v _ F s1 w1 acc1 hn hty hhead hci hk0 hkd hwv (by omega) hre
+  obtain ⟨s3, h4, h5⟩ := entries_structure o epost X s2 F acceptAll { w1 with log := r :: w1.log }
+    (putEntry o.normKey acc1 (t.text.take i) (denoteVal o.dia o.normKey v)) hepost (by omega) h3
+  exact ⟨s3, r, by rw [h1, h4], h2, h5⟩
+
+theorem table_null_key_long_step (o : Opts) (t : Tok) (s' : PS) (v : Val) (X : List TokSpec) (F : Nat)
+    (s1 : PS) (w1 : W) (acc1 : List (Str × Str × V))
+    (hn : ∀ pol w, nextTok o s1 pol w = .ok (t, s') w) (hty : t.ty = .value) (hhead : t.text.head? = some colon)
+    (hlen : 1 < t.text.length) (hwv : wfVal o v = true) (hf : szVal v ≤ F)
+    (hre : Feeds o (consume (trimTok s' t 1 .value).2) (valToks v ++ X)) :
+    ∃ s2 r, tableLoop o (F + 2) s1 acc1 acceptAll w1 = tableLoop o F s2 acc1 acceptAll { w1 with log := r :: w1.log }
+      ∧ r.code = CIF_NULL_KEY ∧ Feeds o s2 X := by
+  obtain ⟨vty, vtx, vts, hvt, hstart, _⟩ := valToks_head v
+  have hr' := hre
+  rw [hvt, List.cons_append] at hr'
+  obtain ⟨t2, s2, hty2, htx2, hn2, ht2, hr2⟩ := hr'.inv
+  have hpend : Feeds o s2 (valToks v ++ X) := by
+    rw [hvt, List.cons_append, ← hty2, ← htx2]; exact Feeds.pending ht2 hr2
+  let r0 : Report := ⟨CIF_NULL_KEY, s'.scan.line, s'.scan.col - t.text.length⟩
+  obtain ⟨s3, h1, h2⟩ := value_structure o v _ s2 F acceptAll { w1 with log := r0 :: w1.log } hwv hf hpend
+  refine ⟨s3, r0, ?_, rfl, h2⟩
+  rw [tableLoop]
+  simp only [bind_eq, pure_eq, P.bind, P.pure, hn, hty, hhead, if_true, report_accept, gt_iff_lt, hlen]
+  rw [tableEntry]
+  simp only [bind_eq, pure_eq, P.bind, P.pure, hn2, hty2, hstart, if_true, h1, r0]
+
+/-- `… :value …}` (a colon with nothing in front) inside a table: exactly one CIF_NULL_KEY; the value is dropped -/
+theorem table_null_key_long_tail (o : Opts) (t : Tok) (s' : PS) (v : Val) (epost : List (Str × Presentation × Val))
+    (X : List TokSpec) (fuel : Nat) (s1 : PS) (w1 : W) (acc1 : List (Str × Str × V))
+    (hn : ∀ pol w, nextTok o s1 pol w = .ok (t, s') w) (hty : t.ty = .value) (hhead : t.text.head? = some colon)
+    (hlen : 1 < t.text.length) (hwv : wfVal o v = true) (hepost : wfEntries o epost = true)
+    (hf : szVal v + szEntries epost + 3 ≤ fuel)
+    (hre : Feeds o (consume (trimTok s' t 1 .value).2) (valToks v ++ (entriesToks epost ++ (.ctable, [125]) :: X))) :
+    ∃ s2 r, tableLoop o fuel s1 acc1 acceptAll w1
+        = .ok (denoteEntries o.dia o.normKey epost acc1, s2) { w1 with log := r :: w1.log }
+      ∧ r.code = CIF_NULL_KEY ∧ Feeds o s2 X := by
+  obtain ⟨F, rfl⟩ : ∃ F, fuel = F + 2 := ⟨fuel - 2, by omega⟩
+  obtain ⟨s2, r, h1, h2, h3⟩ := table_null_key_long_step o t s' v _ F s1 w1 acc1 hn hty hhead hlen hwv (by omega) hre
+  obtain ⟨s3, h4, h5⟩ := entries_structure o epost X s2 F acceptAll { w1 with log := r :: w1.log } acc1 hepost (by omega) h3
+  exact ⟨s3, r, by rw [h1, h4], h2, h5⟩
+
+end CifModel.Model.Parser
